@@ -235,7 +235,9 @@ fn one_case(ctx: &WorkerCtx, rep: &mut WorkerReport, case_seed: u64) {
         let mut lens = vec![0u64, 1, need_len.saturating_sub(1), need_len, need_len + 1, need_len * 2 + 1, 1_000_000, u64::MAX / GAS_PER_BYTE, u64::MAX / GAS_PER_BYTE + 1, u64::MAX];
         if !ctx.thorough() {
             rng.shuffle(&mut lens);
-            lens.truncate(5);
+            lens.truncate(4);
+            lens.push(u64::MAX / GAS_PER_BYTE + 1 + rng.below(1000));
+            lens.push(u64::MAX);
         }
         for len in lens {
             // state before
@@ -258,6 +260,14 @@ fn one_case(ctx: &WorkerCtx, rep: &mut WorkerReport, case_seed: u64) {
             let used = hexq(&rc["gasUsed"]);
             let allowance = len.saturating_mul(GAS_PER_BYTE);
             let failed = rc["status"].as_str() != Some("0x1");
+            // an allowance well above the need must be enough (the allowance follows the size)
+            if let Some(n) = need {
+                if failed && p.name != "revert" && len >= 2 * ((n + GAS_PER_BYTE - 1) / GAS_PER_BYTE) + 1 {
+                    violation(rep, "C16", ctx.seed, "starved-despite-sufficient-length", format!("{} needs about {} gas but failed with an inscription length of {} bytes (allowance {} gas, used {})", p.name, n, len, allowance, used), json!({"case_seed": case_seed, "network": net, "program": p.name, "len": len, "receipt": rc}));
+                    drop_driver(bed.d);
+                    return;
+                }
+            }
             let starved = failed && (used == allowance || used == 0) && need.map(|n| allowance < n + n / 2).unwrap_or(false) && p.name != "revert";
             if starved {
                 let after = state_obs(&mut bed.d, &u);
